@@ -171,3 +171,31 @@ pub fn k_replay_set_text_lines() {
 }
 #[cfg(kani)]
 pub fn k_replay_set_text_lines() {}
+
+/// update_currency natively: (0 = a currency code, 1 = an alias, 2 = an unknown name; the new rate): success exactly for
+/// known names, afterwards the rate table differs from the old one at exactly that currency
+#[cfg(not(kani))]
+pub fn k_replay_update_currency() {
+    let kind: u8 = vany(); let rate: f64 = vany();
+    vassume(kind <= 2);
+    let mut calc = crate::SmartCalc::default();
+    let (name, target) = {
+        let cfg = crate::smartcalc::verif_k_local::config_of(&calc);
+        match kind {
+            0 => ("EUR".to_string(), cfg.currency.get("eur").cloned()),
+            1 => { let (k, v) = cfg.currency_alias.iter().next().expect("an alias"); (k.to_uppercase(), Some(v.clone())) }
+            _ => ("zzzz".to_string(), None),
+        }
+    };
+    let before: Vec<(String, f64)> = crate::smartcalc::verif_k_local::config_of(&calc).currency_rate.iter().map(|(k, v)| (k.code.clone(), *v)).collect();
+    let ok = calc.update_currency(&name, rate);
+    assert!(ok == target.is_some());
+    let cfg = crate::smartcalc::verif_k_local::config_of(&calc);
+    for (code, old) in before.iter() {
+        let now = cfg.currency_rate.iter().find(|(k, _)| &k.code == code).map(|(_, v)| *v).expect("rate kept");
+        match &target { Some(t) if &t.code == code => assert!(now == rate || (now.is_nan() && rate.is_nan())), _ => assert!(now == *old) }
+    }
+    if let Some(t) = &target { assert!(cfg.currency_rate.iter().any(|(k, v)| k.code == t.code && (*v == rate || rate.is_nan()))); }
+}
+#[cfg(kani)]
+pub fn k_replay_update_currency() {}
